@@ -130,9 +130,10 @@ func (p *pool) coq(k *key) string {
 }
 
 // cb prints a byte string as a Coq term of type bytes, writing every occurrence of a pool key's
-// serialization as `pk_ser pkN` (same bytes, far fewer literals for coqc to elaborate).
+// serialization as `pk_ser pkN` and every run of 12 or more equal bytes as `repeat` (same bytes,
+// far fewer literals for coqc to elaborate).
 func (p *pool) cb(b []byte) string {
-	if len(b) < 20 || len(p.keys) == 0 {
+	if len(b) < 12 {
 		return hx.CoqBytes(b)
 	}
 	var segs []string
@@ -152,23 +153,46 @@ func (p *pool) cb(b []byte) string {
 				}
 			}
 		}
-		if hit == nil {
-			i++
+		if hit != nil {
+			flush(i)
+			segs = append(segs, "pk_ser "+hit.name)
+			i += len(hit.ser)
+			lit = i
 			continue
 		}
-		flush(i)
-		segs = append(segs, "pk_ser "+hit.name)
-		i += len(hit.ser)
-		lit = i
+		j := i
+		for j < len(b) && b[j] == b[i] {
+			j++
+		}
+		if j-i >= 12 {
+			flush(i)
+			segs = append(segs, fmt.Sprintf("repeat %d (N.to_nat %d)", b[i], j-i))
+			i = j
+			lit = i
+			continue
+		}
+		i++
 	}
 	flush(len(b))
 	if len(segs) == 1 {
-		if strings.HasPrefix(segs[0], "pk_ser") {
+		if !strings.HasPrefix(segs[0], "[") {
 			return "(" + segs[0] + ")"
 		}
 		return segs[0]
 	}
 	return "(" + strings.Join(segs, " ++ ") + ")"
+}
+
+// data returns n bytes of test data: random when short, a run of one random byte (printed
+// compactly) when long.
+func (d *drv) data(n int) []byte {
+	if n < 24 {
+		return d.c.Bytes(n)
+	}
+	b := bytes.Repeat([]byte{byte(d.c.Intn(256))}, n)
+	copy(b, d.c.Bytes(2))
+	b[n-1] = byte(d.c.Intn(256))
+	return b
 }
 
 func (p *pool) coqKeys(ks []*key) string {
@@ -414,6 +438,9 @@ func runBuilder(ops []buildOp) (out []byte, panicked bool) {
 	return
 }
 
+// cbPlain: the compact printer without key names.
+func cbPlain(b []byte) string { return (&pool{}).cb(b) }
+
 func coqOps(ops []buildOp) string {
 	var s []string
 	for _, o := range ops {
@@ -421,7 +448,7 @@ func coqOps(ops []buildOp) string {
 		case "num":
 			s = append(s, fmt.Sprintf("BNum %d", o.V))
 		case "bytes":
-			s = append(s, "BBytes "+hx.CoqBytes(hx.UnHex(o.D)))
+			s = append(s, "BBytes "+cbPlain(hx.UnHex(o.D)))
 		case "rep":
 			s = append(s, fmt.Sprintf("BBytes (repeat %d (N.to_nat %d))", byte(o.V), o.N))
 		default:
@@ -448,7 +475,7 @@ func (d *drv) doBuild(ops []buildOp) {
 		c.Case(fmt.Sprintf("CBuild %s None", coqOps(ops)), in)
 		return
 	}
-	c.Case(fmt.Sprintf("CBuild %s (Some %s)", coqOps(ops), hx.CoqBytes(out)), in)
+	c.Case(fmt.Sprintf("CBuild %s (Some %s)", coqOps(ops), cbPlain(out)), in)
 	// oracle: what the builder pushed is what GetParamInfo reads back, when only data was pushed
 	onlyData := true
 	var want [][]byte
@@ -816,20 +843,20 @@ func (d *drv) doParam(prog []byte, kind string) {
 	}
 	if err != nil {
 		c.Count("param-result:" + errClass(err))
-		c.Case(fmt.Sprintf("CParam %s (ParErr %s)", hx.CoqBytes(prog), errClass(err)), in)
+		c.Case(fmt.Sprintf("CParam %s (ParErr %s)", cbPlain(prog), errClass(err)), in)
 		return
 	}
 	c.Count("param-result:ok")
 	var s []string
 	total := 0
 	for _, x := range sigs {
-		s = append(s, hx.CoqBytes(x))
+		s = append(s, cbPlain(x))
 		total += len(x)
 	}
 	if total > len(prog) {
 		c.Fail("param-oob", "GetParamInfo returned more data than the script holds", in, total, len(prog))
 	}
-	c.Case(fmt.Sprintf("CParam %s (ParOk %s)", hx.CoqBytes(prog), hx.CoqList(s)), in)
+	c.Case(fmt.Sprintf("CParam %s (ParOk %s)", cbPlain(prog), hx.CoqList(s)), in)
 }
 
 func (d *drv) doParams(sigs [][]byte) {
@@ -838,7 +865,7 @@ func (d *drv) doParams(sigs [][]byte) {
 	var hs, cs []string
 	for _, s := range sigs {
 		hs = append(hs, hx.Hex(s))
-		cs = append(cs, hx.CoqBytes(s))
+		cs = append(cs, cbPlain(s))
 	}
 	in := input{Kind: "params", Sigs: hs}
 	var prog []byte
@@ -849,7 +876,7 @@ func (d *drv) doParams(sigs [][]byte) {
 		return
 	}
 	c.Nontrivial("P" + strings.Join(hs, ","))
-	c.Case(fmt.Sprintf("CParams %s (Some %s)", hx.CoqList(cs), hx.CoqBytes(prog)), in)
+	c.Case(fmt.Sprintf("CParams %s (Some %s)", hx.CoqList(cs), cbPlain(prog)), in)
 	got, err := program.GetParamInfo(prog)
 	ok := err == nil && len(got) == len(sigs)
 	for i := 0; ok && i < len(sigs); i++ {
@@ -1209,7 +1236,7 @@ func (d *drv) randBuildOps() []buildOp {
 			if c.Intn(3) == 0 {
 				l = 1 + c.Intn(90)
 			}
-			ops = append(ops, buildOp{Op: "bytes", D: hx.Hex(c.Bytes(l))})
+			ops = append(ops, buildOp{Op: "bytes", D: hx.Hex(d.data(l))})
 		default:
 			ops = append(ops, buildOp{Op: "op", V: uint64(c.Intn(256))})
 		}
@@ -1366,7 +1393,7 @@ func Run(c *hx.Ctx) {
 	for i, n := 0, c.N(40, 400); i < n; i++ {
 		var sigs [][]byte
 		for j, k := 0, c.Intn(5); j < k; j++ {
-			sigs = append(sigs, c.Bytes([]int{0, 1, 64, 65, 75, 76, 255, 256, 300}[c.Intn(9)]))
+			sigs = append(sigs, d.data([]int{0, 1, 64, 65, 75, 76, 255, 256, 300}[c.Intn(9)]))
 		}
 		d.doParams(sigs)
 	}
@@ -1375,7 +1402,7 @@ func Run(c *hx.Ctx) {
 		case 0:
 			d.doParam(d.randomScript(), "random")
 		case 1:
-			d.doParam(d.mutate(program.ProgramFromParams([][]byte{c.Bytes(64), c.Bytes(1 + c.Intn(80))})), "mutated")
+			d.doParam(d.mutate(program.ProgramFromParams([][]byte{d.data(64), d.data(1 + c.Intn(80))})), "mutated")
 		default:
 			b := c.Bytes(c.Intn(12))
 			if len(b) > 0 {
